@@ -10,6 +10,7 @@ import Driver.DevIdOps
 import Driver.AsyncOps
 import Driver.SchedOps
 import Driver.TxnOps
+import Driver.EventOps
 open Lean Driver
 
 def dispatch (j : Json) : P Json := do
@@ -36,6 +37,7 @@ def dispatch (j : Json) : P Json := do
   | "sched" => opSched j
   | "txn" => opTxn j
   | "pyint16" => opPyInt j
+  | "event" => opEvent j
   | o => throw s!"bad-op {o}"
 
 def handle (line : String) : String :=
